@@ -53,6 +53,8 @@ def plan(tier):
         descs.append({"kind": "mutants", "examples": per})
     descs.append({"kind": "link_states"})
     descs.append({"kind": "sampler_record_grid"})
+    for i in range(2):
+        descs.append({"kind": "surplus_cvals", "files": fixture_files()[i::2]})
     fs_all = fixture_files()
     for i in range(4):
         descs.append({"kind": "fixture_option_sweep", "files": fs_all[i::4]})
@@ -262,8 +264,9 @@ def mutation_list(draw, chunks):
     pdta_idx = [i for i, (cid, p) in enumerate(chunks) if cid == b"PDTA" and len(p) >= 8]
     n_mods = 1 + max([m for m, _ in info if m is not None], default=0)
     kinds = []
+    last_cvals = [i for i in cval_idx if i + 1 >= len(chunks) or chunks[i + 1][0] != b"CVAL"]
     if cval_idx:
-        kinds += ["cval"] * 4
+        kinds += ["cval"] * 4 + ["cval_extra"]
     if opt_idx:
         kinds += ["opt"]
     if link_idx:
@@ -289,6 +292,11 @@ def mutation_list(draw, chunks):
     muts = []
     for _ in range(draw(st.integers(1, 4))):
         k = draw(st.sampled_from(kinds))
+        if k == "cval_extra":
+            if any(mu[0] == "cval_extra" for mu in muts):
+                continue
+            muts.append(["cval_extra", draw(st.sampled_from(last_cvals)), draw(st.lists(st.integers(-300, 70000), min_size=1, max_size=4))])
+            continue
         if k == "cval":
             i = draw(st.sampled_from(cval_idx))
             m, ordinal = info[i]
@@ -363,8 +371,12 @@ def mutation_list(draw, chunks):
 
 def apply_mutations(chunks, muts):
     out = list(chunks)
+    extras = []
     for mu in muts:
-        if mu[0] == "cval":
+        if mu[0] == "cval_extra":
+            # controller values beyond those this library knows for the module type (a file from a newer SunVox)
+            extras.append((mu[1], mu[2]))
+        elif mu[0] == "cval":
             out[mu[1]] = (b"CVAL", struct.pack("<i", mu[2]))
         elif mu[0] == "opt":
             out[mu[1]] = (b"CHDT", bytes.fromhex(mu[2]))
@@ -391,6 +403,8 @@ def apply_mutations(chunks, muts):
             b = bytearray(p)
             b[mu[2] * 8 : mu[2] * 8 + 8] = struct.pack("<BBHHH", *mu[3])
             out[mu[1]] = (cid, bytes(b))
+    for i, vals in sorted(extras, reverse=True):
+        out[i + 1 : i + 1] = [(b"CVAL", struct.pack("<i", v)) for v in vals]
     return chunktools.build(out)
 
 
@@ -604,6 +618,27 @@ def run_shard(ctx, desc):
                     ctx.mark_nontrivial(case)
             ctx.label("fixture_cval_sweep")
             ctx.sample({"src": "fixture_cval_sweep", "file": rel, "mutants": n})
+        return
+
+    if desc["kind"] == "surplus_cvals":
+        for f in desc["files"]:
+            rel = os.path.relpath(f, os.path.join(REPO, "tests", "files"))
+            with open(f, "rb") as fh:
+                chunks = chunktools.parse(fh.read())
+            last = [i for i, (cid, _) in enumerate(chunks) if cid == b"CVAL" and (i + 1 >= len(chunks) or chunks[i + 1][0] != b"CVAL")]
+            for i in last[:2] + last[-1:]:
+                ctx.case()
+                case = {"src": "fixture", "file": rel, "mutations": [["cval_extra", i, [7, 1, 300]]]}
+                try:
+                    r = stability(apply_mutations(chunks, case["mutations"]), cycles, rel)
+                    if r == "unloadable":
+                        ctx.label("unloadable")
+                    else:
+                        ctx.mark_nontrivial(case)
+                except PropertyViolation as vio:
+                    ctx.check(False, vio.sub_oracle, vio.detail, key=vio.key, recipe={"case": case})
+            ctx.label("surplus_controller_values")
+        ctx.sample({"src": "surplus_cvals", "files": len(desc["files"])})
         return
 
     if desc["kind"] == "sampler_record_grid":
